@@ -80,6 +80,14 @@ def gen_rt(seed, shard, nb, nr):
                 e = shared
             else:
                 e = Epoch(x)
+            if i % 2 == 1:
+                # other views asked for first (civil UTC date, explicit leap seconds, year, weekday): reading one view
+                # must not colour the next one
+                for view in (lambda: e.get_date(utc=True), lambda: e.get_full_date(leap_seconds=0.0), e.year, e.dow):
+                    try:
+                        view()
+                    except Exception:
+                        pass          # these views are judged by their own properties (C10, C16)
             ev["stored"] = fx(e.jde())
             y, m, d, h, mi, s = e.get_full_date()
             ev["f"] = [_ii(y), _ii(m), _ii(d), _ii(h), _ii(mi)]
